@@ -16,11 +16,11 @@ BN_TYPE(1); BN_TYPE(2); BN_TYPE(3); BN_TYPE(4); BN_TYPE(5); BN_TYPE(6); BN_TYPE(
 #define BN_POOL 6
 /* every pool slot is its own top-level object: an access past the end of one allocation is an
  * out-of-bounds obligation (elements of one array would be a single object for CBMC) */
-#define BN_SLOTS(n) static struct bn_##n bn_p##n##_0, bn_p##n##_1, bn_p##n##_2, bn_p##n##_3, bn_p##n##_4, bn_p##n##_5
+#define BN_SLOTS(n) struct bn_##n bn_p##n##_0, bn_p##n##_1, bn_p##n##_2, bn_p##n##_3, bn_p##n##_4, bn_p##n##_5
 BN_SLOTS(0); BN_SLOTS(1); BN_SLOTS(2); BN_SLOTS(3); BN_SLOTS(4); BN_SLOTS(5); BN_SLOTS(6); BN_SLOTS(7); BN_SLOTS(8);
 #define BN_PICK(n, k) ((k) == 0 ? (void*)&bn_p##n##_0 : (k) == 1 ? (void*)&bn_p##n##_1 : (k) == 2 ? (void*)&bn_p##n##_2 : \
                        (k) == 3 ? (void*)&bn_p##n##_3 : (k) == 4 ? (void*)&bn_p##n##_4 : (void*)&bn_p##n##_5)
-static int bn_used[9];
+int bn_used[9];                   /* pools and counters are shared by the harness TU and the stub TU */
 int bn_allocs;          /* ghost: number of allocations */
 unsigned long bn_expect_words[8]; int bn_expect_n;   /* optional: expected word count per allocation ordinal */
 sexp verif_reg[24]; int verif_nreg;    /* registered heap objects (prelude, VERIF_KINDFOLD) */
@@ -49,6 +49,49 @@ static void *bn_alloc(size_t size) {
   verif_register(r);
   return r;
 }
+
+/* ---- alloc_gc: the adversarial collector (C02) --------------------------------------------
+ * With -DVERIF_GC every allocation first runs a collection that reclaims EVERY pool object not
+ * reachable from a registered root: the variables on the context's preserve chain
+ * (ctx->saves), and the objects the harness declared caller-rooted.  Bignums hold no references,
+ * so reachability is "some root holds its address".  A reclaimed object is havocked (every word,
+ * header included, becomes arbitrary - the storage is reused) and flagged; using it afterwards
+ * breaks the function's safety or functional obligations, and returning it breaks
+ * `gc.result_live`.  Over-approximating roots would only weaken the collector. */
+#ifdef VERIF_GC
+struct bn_ctx_t { unsigned int tag; char markedp; unsigned char flags; unsigned short pad0;
+  sexp stack, env, parent, child, globals, dk, params, proc, name, specific, event, result, dl;
+  sexp_heap heap; struct sexp_mark_stack_ptr_t mark_stack[SEXP_MARK_STACK_COUNT]; struct sexp_mark_stack_ptr_t *mark_stack_ptr;
+  struct sexp_gc_var_t *saves; };
+_Static_assert(offsetof(struct bn_ctx_t, saves) == offsetof(struct sexp_struct, value.context.saves), "context layout (saves)");
+sexp bn_rooted[6]; int bn_nrooted;                       /* caller-rooted objects (arguments) */
+static inline void bn_root(sexp x) { if (bn_nrooted < 6) bn_rooted[bn_nrooted++] = x; }
+int bn_dead[9][BN_POOL];                                 /* ghost: slot was reclaimed */
+int bn_collections;
+static int bn_is_rooted(sexp ctx, void *slot) {
+  for (int r = 0; r < 6; r++) if (r < bn_nrooted && bn_rooted[r] == (sexp)slot) return 1;
+  struct sexp_gc_var_t *s = ((struct bn_ctx_t*)ctx)->saves;
+  for (int d = 0; d < 12 && s != NULL; d++, s = s->next)
+    if (s->var != NULL && *(s->var) == (sexp)slot) return 1;
+  return 0;
+}
+#define BN_HAVOC(n, k) do { struct bn_##n h_; *(struct bn_##n *)BN_PICK(n, k) = h_; } while (0)
+#define BN_SWEEP(n) for (int k = 0; k < BN_POOL; k++) if (k < bn_used[n] && !bn_dead[n][k] && !bn_is_rooted(ctx, BN_PICK(n, k))) { bn_dead[n][k] = 1; \
+    switch (k) { case 0: BN_HAVOC(n, 0); break; case 1: BN_HAVOC(n, 1); break; case 2: BN_HAVOC(n, 2); break; case 3: BN_HAVOC(n, 3); break; case 4: BN_HAVOC(n, 4); break; default: BN_HAVOC(n, 5); break; } }
+static void bn_collect(sexp ctx) {
+  bn_collections++;
+  BN_SWEEP(1) BN_SWEEP(2) BN_SWEEP(3) BN_SWEEP(4) BN_SWEEP(5) BN_SWEEP(6) BN_SWEEP(7) BN_SWEEP(8)
+}
+static int bn_is_dead(sexp x) {
+  for (int k = 0; k < BN_POOL; k++) {
+    if (x == (sexp)BN_PICK(1, k)) return bn_dead[1][k]; if (x == (sexp)BN_PICK(2, k)) return bn_dead[2][k];
+    if (x == (sexp)BN_PICK(3, k)) return bn_dead[3][k]; if (x == (sexp)BN_PICK(4, k)) return bn_dead[4][k];
+    if (x == (sexp)BN_PICK(5, k)) return bn_dead[5][k]; if (x == (sexp)BN_PICK(6, k)) return bn_dead[6][k];
+    if (x == (sexp)BN_PICK(7, k)) return bn_dead[7][k]; if (x == (sexp)BN_PICK(8, k)) return bn_dead[8][k];
+  }
+  return 0;
+}
+#endif
 
 /* operands: BN_DECL(a, 2) declares a static 2-word bignum `a_obj` and sexp a */
 #define BN_DECL(name, n) static struct bn_##n name##_obj; sexp name = (sexp)&name##_obj
